@@ -57,8 +57,8 @@ func c05Witness(r *Run) {
 		r.Fail("submit/response-before-write-returns", "a response processed before the transport Write returned did not reach its Submit call", input,
 			fmt.Sprintf("submit=%s PDU()=%s", got, fmtDeliveries(app)), "Submit returns the enquire_link_resp with sequence 7; PDU() yields nothing")
 	}
-	r.Case("witness D25 "+input, w.CaseExpr(connVariant))
-	r.Case("hypotheses-of-C05 hold on witness D25", w.EnvExpr(connVariant))
+	r.Case("witness-D25 "+input, w.CaseExpr(connVariant))
+	r.Case("witness-D25-env hypotheses-of-C05 hold on witness D25", w.EnvExpr(connVariant))
 }
 
 func c05Scenario(r *Run, ts []pduType, idx, maxCallers int) {
@@ -127,7 +127,8 @@ func c05Scenario(r *Run, ts []pduType, idx, maxCallers int) {
 		}
 		if cancels && len(calls) > 0 && rng.Intn(7) == 0 {
 			x := calls[rng.Intn(len(calls))]
-			if !x.cancelled && !w.Returned(x.c) {
+			// (an answered call is cancelled only when its response has been dispatched for sure: not behind a delivery the slow consumer has not taken)
+			if !x.cancelled && !w.Returned(x.c) && !(x.answered && w.watchSending()) {
 				x.cancelled = true
 				x.either = x.answered // answered and not returned: it is inside its Write with the response filed
 				x.answered = true     // the peer does not answer it any more
